@@ -76,9 +76,9 @@ func main() {
 		rc.workers = 2
 	}
 	// generous timeouts: obligations that hold discharge in seconds; only failing ones wait this long
-	rc.timeoutS = 60
+	rc.timeoutS = 30
 	if *tier == "thorough" {
-		rc.timeoutS = 240
+		rc.timeoutS = 120
 	}
 	if *timeout > 0 {
 		rc.timeoutS = *timeout
